@@ -276,6 +276,17 @@ func discoveryData(p *world.Peer, entries []entry, withDev bool) *model.NodeMana
 	return data
 }
 
+// shuffledFeatures: the order of the feature information list carries no meaning - in a third of the messages
+// the features of different entities come interleaved (those of one entity in several runs).
+func shuffledFeatures(t *rapid.T, data *model.NodeManagementDetailedDiscoveryDataType) *model.NodeManagementDetailedDiscoveryDataType {
+	if len(data.FeatureInformation) < 3 || rapid.IntRange(0, 2).Draw(t, "featureListShuffled") != 0 {
+		return data
+	}
+	data.FeatureInformation = rapid.Permutation(data.FeatureInformation).Draw(t, "featureOrder")
+	world.Label("msg/feature-information-in-any-order")
+	return data
+}
+
 // ---------------------------------------------------------------------------------------------
 // canonical rendering of trees (model and implementation in the same terms)
 
@@ -905,11 +916,11 @@ func (m *machine) message(t *rapid.T) {
 	case "partial":
 		entries, d = m.drawPartial(t, pi)
 		cmd := model.CmdType{Function: util.Ptr(model.FunctionTypeNodeManagementDetailedDiscoveryData), Filter: []model.FilterType{*model.NewFilterTypePartial()},
-			NodeManagementDetailedDiscoveryData: discoveryData(p, entries, withDev)}
+			NodeManagementDetailedDiscoveryData: shuffledFeatures(t, discoveryData(p, entries, withDev))}
 		d1 = p.Msg(model.CmdClassifierTypeNotify, p.NM(), world.LocalNM(), false, nil, cmd)
 	case "full":
 		entries, d = m.drawAnnounced(t, pi, false)
-		cmd := model.CmdType{NodeManagementDetailedDiscoveryData: discoveryData(p, entries, withDev)}
+		cmd := model.CmdType{NodeManagementDetailedDiscoveryData: shuffledFeatures(t, discoveryData(p, entries, withDev))}
 		d1 = p.Msg(model.CmdClassifierTypeNotify, p.NM(), world.LocalNM(), false, nil, cmd)
 	case "reply":
 		entries, d = m.drawAnnounced(t, pi, true)
@@ -929,7 +940,7 @@ func (m *machine) message(t *rapid.T) {
 			delete(m.unannounced, pi)
 			world.Label("msg/late-initial-reply")
 		}
-		cmd := model.CmdType{NodeManagementDetailedDiscoveryData: discoveryData(p, entries, withDev)}
+		cmd := model.CmdType{NodeManagementDetailedDiscoveryData: shuffledFeatures(t, discoveryData(p, entries, withDev))}
 		d1 = p.Msg(model.CmdClassifierTypeReply, p.NM(), world.LocalNM(), false, ctr, cmd)
 	}
 	shape := mix(entries, d, kind) + "/" + kind
